@@ -15,6 +15,10 @@ theorem schedStep_log (w : World) : (schedStep w).log = w.log := by
   unfold schedStep; split; rfl; split; rfl; split <;> rfl
 theorem schedStep_avail (w : World) : (schedStep w).seccompAvailable = w.seccompAvailable := by
   unfold schedStep; split; rfl; split; rfl; split <;> rfl
+theorem schedStep_refusal (w : World) : (schedStep w).refusal = w.refusal := by
+  unfold schedStep; split; rfl; split; rfl; split <;> rfl
+theorem Refusal.errno_ne_zero (r : Refusal) : r.errno ≠ 0 := by cases r <;> decide
+theorem Refusal.errno_ne_einval (r : Refusal) : r.errno ≠ EINVAL := by cases r <;> decide
 theorem schedStep_nnpAvail (w : World) : (schedStep w).nnpAvailable = w.nnpAvailable := by
   unfold schedStep; split; rfl; split; rfl; split <;> rfl
 theorem schedStep_locked (w : World) (h : w.lockCount ≠ 0) : schedStep w = w := by
@@ -47,7 +51,8 @@ inductive FilterOutcome (flags : Nat) (uargs : Option Prog) (w : World) : Nat ×
       (hwhy : flags &&& knownFlags ≠ flags ∨ uargs = none ∨
         (∃ p, uargs = some p ∧ (p.ok = false ∨ p.len = 0 ∨ p.len > BPF_MAXINSNS)) ∨
         (((schedStep w).thr (schedStep w).cur).nnp = false ∧ w.privileged = false) ∨
-        w.seccompAvailable = false) :
+        w.seccompAvailable = false ∨
+        (flags &&& FLAG_TSYNC ≠ 0 ∧ flags &&& FLAG_NEW_LISTENER ≠ 0)) :
       FilterOutcome flags uargs w
         (0, e, { schedStep w with log := .seccomp (schedStep w).cur 1 flags uargs :: w.log })
   /-- thread-sync refused: positive return value, errno 0, nothing attached -/
@@ -56,14 +61,16 @@ inductive FilterOutcome (flags : Nat) (uargs : Option Prog) (w : World) : Nat ×
       (hdiv : (w.thr t).filters.isSuffixOf (w.thr (schedStep w).cur).filters = false) :
       FilterOutcome flags uargs w
         (t + 1, 0, { schedStep w with log := .seccomp (schedStep w).cur 1 flags uargs :: w.log })
-  /-- attached to the calling thread only -/
-  | attachedOne (p : Prog) (hp : uargs = some p) (hok : p.ok = true ∧ p.len ≠ 0 ∧ p.len ≤ BPF_MAXINSNS)
+  /-- attached to the calling thread only; the return value is 0 unless a listener was asked for
+      (then it is the listener's descriptor) -/
+  | attachedOne (p : Prog) (r1 : Nat) (hr : flags &&& FLAG_NEW_LISTENER = 0 → r1 = 0)
+      (hp : uargs = some p) (hok : p.ok = true ∧ p.len ≠ 0 ∧ p.len ≤ BPF_MAXINSNS)
       (havail : w.seccompAvailable = true)
       (hflags : flags &&& knownFlags = flags)
       (hts : flags &&& FLAG_TSYNC = 0)
       (hpriv : ((schedStep w).thr (schedStep w).cur).nnp = true ∨ w.privileged = true) :
       FilterOutcome flags uargs w
-        (0, 0, ({ schedStep w with log := .seccomp (schedStep w).cur 1 flags uargs :: w.log } : World).upd (schedStep w).cur
+        (r1, 0, ({ schedStep w with log := .seccomp (schedStep w).cur 1 flags uargs :: w.log } : World).upd (schedStep w).cur
           { (schedStep w).thr (schedStep w).cur with filters := p.id :: ((schedStep w).thr (schedStep w).cur).filters })
   /-- attached to every live thread (thread-sync) -/
   | attachedAll (p : Prog) (hp : uargs = some p) (hok : p.ok = true ∧ p.len ≠ 0 ∧ p.len ≤ BPF_MAXINSNS)
@@ -89,7 +96,7 @@ theorem sysSeccomp_filter (flags : Nat) (uargs : Option Prog) (w : World) :
   split
   · rename_i h0
     have h0' : w.seccompAvailable = false := by simpa [schedStep_avail] using h0
-    exact .declined ENOSYS (by decide) (.inr (.inr (.inr (.inr h0'))))
+    exact .declined (schedStep w).refusal.errno (Refusal.errno_ne_zero _) (.inr (.inr (.inr (.inr (.inl h0')))))
   rename_i h0
   have havail : w.seccompAvailable = true := by
     have : ¬ w.seccompAvailable = false := by simpa [schedStep_avail] using h0
@@ -98,6 +105,10 @@ theorem sysSeccomp_filter (flags : Nat) (uargs : Option Prog) (w : World) :
   · rw [if_pos h1]
     exact .declined EINVAL (by decide) (.inl h1)
   · rw [if_neg h1]
+    by_cases hc : flags &&& FLAG_TSYNC ≠ 0 ∧ flags &&& FLAG_NEW_LISTENER ≠ 0
+    · rw [if_pos hc]
+      exact .declined EINVAL (by decide) (.inr (.inr (.inr (.inr (.inr hc)))))
+    rw [if_neg hc]
     cases uargs with
     | none => exact .declined EFAULT (by decide) (.inr (.inl rfl))
     | some p =>
@@ -145,14 +156,34 @@ theorem sysSeccomp_filter (flags : Nat) (uargs : Option Prog) (w : World) :
               have := FilterOutcome.attachedAll (w := w) p rfl hok havail (by simpa using h1) h4 hsync hpriv
               simpa only [schedStep_live, schedStep_thr] using this
           · rw [if_neg h4]
-            exact .attachedOne p rfl hok havail (by simpa using h1) (by simpa using h4) hpriv
+            refine .attachedOne p _ ?_ rfl hok havail (by simpa using h1) (by simpa using h4) hpriv
+            intro hl; rw [if_neg (by simpa using hl)]
 
-/-- the probe `seccomp(SECCOMP_SET_MODE_STRICT, 1, NULL)`: EINVAL if the syscall exists, ENOSYS if not;
+/-- the probe `seccomp(SECCOMP_SET_MODE_STRICT, 1, NULL)`: EINVAL if the syscall exists, the refusal's errno (ENOSYS, EPERM, EACCES) if not;
     nothing but the call log changes -/
 theorem sysSeccomp_probe (w : World) :
     sysSeccomp 0 1 none w =
-      (0, if w.seccompAvailable = true then EINVAL else ENOSYS,
+      (0, if w.seccompAvailable = true then EINVAL else w.refusal.errno,
         { schedStep w with log := .seccomp (schedStep w).cur 0 1 none :: w.log }) := by
   unfold sysSeccomp
   cases ha : w.seccompAvailable <;>
-    simp [SECCOMP_SET_MODE_STRICT, schedStep_avail, schedStep_log, ha]
+    simp [SECCOMP_SET_MODE_STRICT, schedStep_avail, schedStep_log, schedStep_refusal, ha]
+
+/-- any operation other than SET_MODE_FILTER leaves the filter chains alone: the world afterwards is
+    the logged one, possibly with the calling thread in strict mode -/
+theorem sysSeccomp_other (op flags : Nat) (uargs : Option Prog) (w : World) (hop : op ≠ 1) :
+    (sysSeccomp op flags uargs w).2.2 =
+        { schedStep w with log := .seccomp (schedStep w).cur op flags uargs :: w.log } ∨
+    (sysSeccomp op flags uargs w).2.2 =
+        ({ schedStep w with log := .seccomp (schedStep w).cur op flags uargs :: w.log } : World).upd (schedStep w).cur
+          { (schedStep w).thr (schedStep w).cur with strict := true } := by
+  have h1 : ¬ op = SECCOMP_SET_MODE_FILTER := hop
+  unfold sysSeccomp
+  simp only [if_neg h1, schedStep_log]
+  split
+  · exact .inl rfl
+  · split
+    · split
+      · exact .inl rfl
+      · exact .inr rfl
+    · exact .inl rfl
